@@ -1,7 +1,6 @@
 import BPT.C.Refs
 import BPT.C.Wrapper
 import BPT.C.Search
-import BPT.Generated.TieC
 /-
   C12 — the C extension mapping behaves like dict; iterators fail fast on mutation.
 
